@@ -8,7 +8,7 @@ CONSTANTS
   ReplyShapes <- RS_small
   EventShapes <- ES_big
   EvNames <- N2
-  Listeners <- L5
+  Listeners <- L7
   SubmitKinds <- K2
   Loose = FALSE
   Dev <- NoDev
